@@ -81,6 +81,12 @@ func main() {
 			set := map[string]bool{}
 			for f := range e.allSSA {
 				if strings.HasPrefix(fnPkgPath(f), Mod) && !(f.Synthetic != "" && f.Origin() == nil) {
+					// a function literal is listed with its signature: its ordinal name alone does not
+					// identify it once another literal is written before it
+					if f.Parent() != nil {
+						set[fnName(f)+"\t"+f.Signature.String()] = true
+						continue
+					}
 					set[fnName(f)] = true
 				}
 			}
